@@ -54,6 +54,8 @@ struct CState {
     write_calls: usize,
     /// every k-th call of read() fails with `Interrupted` without delivering anything (0 = never)
     read_interrupt_every: usize,
+    /// a write call takes at most this many bytes (0 = everything)
+    write_max: usize,
     consumed: usize,
     events: Vec<Event>,
     starve: Option<StarveFn>,
@@ -100,6 +102,7 @@ pub fn pair() -> (MemClient, MemConn) {
             write_interrupt_every: 0,
             write_calls: 0,
             read_interrupt_every: 0,
+            write_max: 0,
             consumed: 0,
             events: Vec::new(),
             starve: None,
@@ -222,6 +225,9 @@ impl MemConn {
             return Err(io::Error::new(io::ErrorKind::Interrupted, "injected transient write error"));
         }
         let mut n = buf.len();
+        if st.write_max > 0 {
+            n = n.min(st.write_max);
+        }
         if let Some((limit, kind)) = st.write_fault {
             if st.out.len() >= limit {
                 return Err(io::Error::new(kind, "injected write fault"));
@@ -309,6 +315,11 @@ impl MemClient {
     pub fn set_read_interrupts(&self, every: usize) {
         let mut st = self.sh.st.lock().unwrap();
         st.read_interrupt_every = every;
+    }
+    /// a write call takes at most `max` bytes (short writes; 0 = everything)
+    pub fn set_write_max(&self, max: usize) {
+        let mut st = self.sh.st.lock().unwrap();
+        st.write_max = max;
     }
     pub fn set_starve(&self, f: StarveFn) {
         let mut st = self.sh.st.lock().unwrap();
